@@ -84,6 +84,16 @@ NUMFUNCS = {
     'dec2hp_v': lambda x: float(A.dec2hp_v(np.array([x]))[0]), 'hp2dec_v': lambda x: float(A.hp2dec_v(np.array([x]))[0]),
     'dd2sec': A.dd2sec, 'angular_typecheck': A.angular_typecheck,
 }
+
+
+def layouts(x):
+    """the same number as the first element of arrays of different shape and memory layout (1-D, 2-D C-order, transposed,
+    Fortran order, strided view, read-only): a vectorised function must treat every layout alike"""
+    ro = np.array([x, 1.0])
+    ro.setflags(write=False)
+    return [('2d-c', np.array([[x, 1.0], [2.0, 3.0]])), ('2d-transposed', np.array([[x, 2.0], [1.0, 3.0]]).T),
+            ('2d-column-of-transposed', np.array([[x, 1.0, 2.0]]).T), ('fortran', np.asfortranarray(np.array([[x, 1.0], [2.0, 3.0]]))),
+            ('strided', np.array([x, 9.0, 1.0, 9.0])[::2]), ('read-only', ro)]
 # notation graph for type-correct chains: hop -> (source notation, target notation)
 HOPS = {
     'dec2hp': ('dec', 'hp'), 'dec2hpa': ('dec', 'HP'), 'dec2gon': ('dec', 'gon'), 'dec2gona': ('dec', 'GON'),
@@ -431,9 +441,16 @@ def main():
 
     vals = gen_values(rng, 2500 * scale, stats)
     # 1. every number-level entry point on every value
-    for x in vals:
+    for i, x in enumerate(vals):
         for name, fn in NUMFUNCS.items():
             add('fn:' + name, f'fn {name} {fhex(x)}', guard(lambda: fn(x)))
+        if i % 7 == 0:
+            for lname, arr in layouts(x):
+                for name, vf in (('dec2hp_v', A.dec2hp_v), ('hp2dec_v', A.hp2dec_v)):
+                    def first(vf=vf, arr=arr):
+                        r = np.asarray(vf(arr))
+                        return float(r.flat[0])
+                    add(f'fn-layout:{lname}:' + name, f'fn {name} {fhex(x)}', guard(first))
     # 2. constructors with sign inference
     for _ in range(3000 * scale):
         pos = rng.choice([None, None, True, False])
